@@ -73,13 +73,14 @@ type Op struct {
 var comps = []string{"a", "b", "c"}
 
 type gen struct {
-	r      *kit.Rand
-	prop   string
-	faces  []FaceCfg
-	names  []string // names used so far (Interests)
-	sent   []Op     // interests issued so far
-	nonces int
-	hasLH  bool
+	r       *kit.Rand
+	prop    string
+	faces   []FaceCfg
+	names   []string // names used so far (Interests)
+	sent    []Op     // interests issued so far
+	nonces  int
+	hasLH   bool
+	regions []string
 }
 
 func (g *gen) name() string {
@@ -219,10 +220,20 @@ func (g *gen) interest() Op {
 		h := kit.Pick(r, []int{0, 1, 1, 2, 5, 255})
 		o.Hop = &h
 	}
-	if r.Chance(0.08) {
+	if r.Chance(0.08) || (len(g.regions) > 0 && r.Chance(0.3)) {
 		n := r.Range(1, 2)
 		for i := 0; i < n; i++ {
 			h := g.prefix()
+			if len(g.regions) > 0 && r.Chance(0.7) {
+				// delegations around the configured producer regions: a region, a name below it, the name above it
+				h = kit.Pick(r, g.regions)
+				switch j := strings.LastIndex(h, "/"); {
+				case r.Chance(0.3) && j > 0:
+					h = h[:j]
+				case r.Chance(0.5):
+					h = strings.TrimSuffix(h, "/") + "/" + kit.Pick(r, []string{"a", "b", "c"})
+				}
+			}
 			for h == "/" { // a delegation with the empty name is not a meaningful forwarding hint
 				h = g.prefix()
 			}
@@ -372,7 +383,26 @@ func (Engine) Generate(prop string, r *kit.Rand, tier string) *kit.Scenario[Conf
 	}
 	if r.Chance(0.15) {
 		c.Regions = append(c.Regions, g.prefix())
+		// several regions, nested ones in either order (the narrower or the wider configured first)
+		for r.Chance(0.45) && len(c.Regions) < 4 {
+			base := kit.Pick(r, c.Regions)
+			var nr string
+			switch i := strings.LastIndex(base, "/"); {
+			case r.Chance(0.4) && i > 0:
+				nr = base[:i]
+			case r.Chance(0.5):
+				nr = strings.TrimSuffix(base, "/") + "/" + kit.Pick(r, []string{"a", "b", "c"})
+			default:
+				nr = g.prefix()
+			}
+			if r.Bool() {
+				c.Regions = append(c.Regions, nr)
+			} else {
+				c.Regions = append([]string{nr}, c.Regions...)
+			}
+		}
 	}
+	g.regions = c.Regions
 
 	nops := r.Range(4, 60)
 	if r.Chance(0.5) {
@@ -498,6 +528,12 @@ func (Engine) Simplify(sc *kit.Scenario[Config, Op]) []*kit.Scenario[Config, Op]
 	}
 	if len(sc.Config.Regions) > 0 {
 		modCfg(func(c *Config) { c.Regions = nil })
+	}
+	if len(sc.Config.Regions) > 1 {
+		for i := range sc.Config.Regions {
+			i := i
+			modCfg(func(c *Config) { c.Regions = append(append([]string(nil), c.Regions[:i]...), c.Regions[i+1:]...) })
+		}
 	}
 	used := map[uint64]bool{}
 	for _, o := range sc.Ops {
